@@ -310,6 +310,19 @@ def _run_longlists(desc):
                 if check_grains(sh, "grain-text", case, rd, gl, True):
                     G.write_grain_file(os.path.join(wd, "g2.map"), rd)
                     check_grains(sh, "grain-text:second-cycle", case, G.read_grain_file(os.path.join(wd, "g2.map")), rd, True)
+                # the plain ubi-file route of the indexer (saveubis -> write_ubi_file / readubis): same number of matrices, same order,
+                # values to the six decimals that format prints
+                from ImageD11 import indexing as _ix
+                uf = os.path.join(wd, "g.ubi")
+                _ix.write_ubi_file(uf, [g.ubi for g in gl])
+                back = _ix.readubis(uf)
+                if len(back) != n:
+                    sh.violation("ubi-file:number-of-matrices", case, {"read": len(back), "written": n})
+                else:
+                    for k_, (a, b) in enumerate(zip(back, gl)):
+                        if np.abs(a - b.ubi).max() > 5.1e-7:
+                            sh.violation("ubi-file:matrix-differs-beyond-printed-decimals", dict(case, grain=k_), {"read": a, "written": b.ubi})
+                            break
                 h = os.path.join(wd, "g.h5")
                 for fn_ in (h, os.path.join(wd, "g2.h5")):
                     if os.path.exists(fn_):
